@@ -457,6 +457,9 @@ func (c *Case) classes(res *callResult) []string {
 	if res.parsed {
 		cl = append(cl, "parsed")
 	}
+	if res.outcome != nil && res.outcome.EnvelopeContent != nil {
+		cl = append(cl, "envelope-content") // past parsing and the integrity check
+	}
 	if (isOCIEntry(c.Entry) && c.Cfg.Docs == "blob") || (!isOCIEntry(c.Entry) && c.Cfg.Docs == "oci") {
 		cl = append(cl, "wrong-kind-verifier")
 	}
